@@ -220,6 +220,21 @@ def attr_sources(program: Program, k: ClassInfo):
             raise AnalysisError("constructor chain too deep")
         local = dict(binding)
         local_wrapped = set()
+        def wraps(v):
+            """The value is a matrix object whenever the parameter it comes from is an ndarray."""
+            if isinstance(v, ast.Call) and norm(v.func) in program.classes:
+                return True
+            if isinstance(v, ast.Name) and v.id in local_wrapped:
+                return True
+            if isinstance(v, ast.IfExp):
+                t, neg = v.test, False
+                if isinstance(t, ast.UnaryOp) and isinstance(t.op, ast.Not):
+                    t, neg = t.operand, True
+                if isinstance(t, ast.Call) and norm(t.func) == "isinstance" and len(t.args) == 2 and "ndarray" in norm(t.args[1]):
+                    return wraps(v.orelse if neg else v.body)
+                return wraps(v.body) and wraps(v.orelse)
+            return False
+
         for st in ast.walk(f.node):
             if isinstance(st, ast.Assign) and len(st.targets) == 1 and isinstance(st.targets[0], ast.Name):
                 local[st.targets[0].id] = local.get(st.targets[0].id, set()) | params_of(st.value, local)
@@ -232,7 +247,7 @@ def attr_sources(program: Program, k: ClassInfo):
                     for tt in (t.elts if isinstance(t, ast.Tuple) else [t]):
                         if is_self_attr(tt):
                             out.setdefault(tt.attr, set()).update(params_of(st.value, local))
-                            if (isinstance(st.value, ast.Call) and norm(st.value.func) in program.classes) or (isinstance(st.value, ast.Name) and st.value.id in local_wrapped):
+                            if wraps(st.value):
                                 wrapped.setdefault(tt.attr, set()).update(params_of(st.value, local))
                             if _fresh_value(st.value):
                                 derived.setdefault(tt.attr, set()).update(params_of(st.value, local))
